@@ -409,6 +409,22 @@ class Harness:
                 v = stim[(si * 5 + lane * 3) % len(stim)]
                 s[0, si, tgt], s[1, si, tgt], s[2, si, tgt] = float(v[0]), float(v[1]), float(v[2])
 
+    def check_assigned_inputs(self, bno):
+        """After s_to_c() every input waveform must encode the assigned initial and final value (s[0], s[2]) - whatever the slot held before."""
+        sim, meta, res = self.sim, self.meta, self.res
+        c, sv = unwrap(sim.c), np.asarray(unwrap(sim.s))
+        for i in range(len(meta.snodes)):
+            loc = int(meta.c_locs[meta.ppi_offset + i])
+            if loc < 0 or len(meta.snodes[i].outs) == 0: continue
+            for lane in range(c.shape[1]):
+                w = refmodels.wave_summary(c[loc:loc + 4, lane])
+                exp = (int(sv[0, i, lane] != 0), int(sv[2, i, lane] != 0))
+                if not w['terminated'] or (w['init'], w['final']) != exp:
+                    res.violate('input-waveform-not-as-assigned', f'batch {bno}: after s_to_c() the waveform of input/state slot {i} lane {lane} is {[float(t) for t in c[loc:loc + 4, lane]]}, '
+                                                                  f'assigned initial/final value {exp}')
+                    return False
+        return True
+
     def write_custom(self, batch):
         """Multi-transition input waveforms written into the interface input slots (capacity 4)."""
         cust = batch.get('custom') or []
@@ -455,7 +471,9 @@ class Harness:
         self.produced = {}
         sim.s_to_c()
         if batch.get('s_to_c_twice'): sim.s_to_c()       # idempotent
-        if not batch.get('keep_s'): self.write_custom(batch)
+        self.check_assigned_inputs(bno)
+        late = bool(batch.get('custom_late') and batch.get('reprop') and not batch.get('keep_s'))
+        if not batch.get('keep_s') and not late: self.write_custom(batch)
         if mon.tag_prod is not None:
             idx = [i for i in range(len(meta.snodes)) if meta.c_locs[meta.ppi_offset + i] >= 0]
             mon.tag_inputs(unwrap(sim.c), idx, [int(meta.c_locs[meta.ppi_offset + i]) for i in idx], n=4)
@@ -474,6 +492,10 @@ class Harness:
         try:
             for _rep in range(2 if batch.get('reprop') else 1):
                 if _rep:
+                    if late:      # the input waveforms are replaced between two propagations, without a new s_to_c(): the second propagation must see them
+                        self.write_custom(batch)
+                        inputs = self.input_values()
+                        res.probe('inputs_rewritten_between_propagations')
                     self.level_no = 0
                     self.produced = {}
                     mon.prop_id += 1
